@@ -584,8 +584,8 @@ inject:
 		return;
 	}
 
-	// Can we queue it?
-	if (nni_lmq_put(&s->wmq, m) == 0) {
+	// Can we queue it?  (Not ahead of senders that are already waiting.)
+	if (nni_list_empty(&s->waq) && (nni_lmq_put(&s->wmq, m) == 0)) {
 		// Yay, we can.  So we're done.
 		nni_aio_set_msg(aio, NULL);
 		nni_aio_finish(aio, 0, len);
